@@ -2,6 +2,7 @@ CONSTANT Rep = {"a", "b", "c"}
 CONSTANT MaxSteps = 6
 CONSTANT Resolutions = {"RemoteWins", "LocalWins", "Merge"}
 CONSTANT EditCap = 99
+CONSTANT Editors = {"a", "b", "c"}
 CONSTANT Directed = FALSE
 CONSTANT RepOrder <- Order3
 SPECIFICATION Spec
